@@ -3,7 +3,7 @@
 From CM Require Import Harness.RunBase Base.Dict Model.Location Spec.LocationSpec Proofs.LocationFacts Generated.Tables.
 Local Open Scope Z_scope.
 
-Definition T_now : ltab := mkltab loc_tol_start loc_tol_end sonar_tuple_widen.
+Definition T_now : ltab := mkltab loc_tol_start loc_tol_end sonar_tuple_widen line_filter_rule.
 
 Definition sp (l1 c1 l2 c2 : Z) : span := mkspan (mkpos l1 c1) (mkpos l2 c2).
 Definition lc (f : str) (l1 c1 l2 c2 : Z) : loc := mkloc f (mkpos l1 c1) (mkpos l2 c2).
